@@ -4,12 +4,12 @@ EXTENDS LoopCore, Json
 
 ChildR(m) == [interest |-> "r", mode |-> m, transient |-> 0, fd |-> "sock"]
 PingD(s, fd, life) == [s |-> s, kind |-> "ping", life |-> life, held |-> 0, dl |-> -1000000, hasdl |-> 0, cap |-> -1,
-                       children |-> <<>>, fds |-> <<fd>>, synth |-> <<>>]
+                       children |-> <<>>, fds |-> <<fd>>, synth |-> <<>>, ondrop |-> 0]
 TimerD(s, dl) == [s |-> s, kind |-> "timer", life |-> 0, held |-> 1, dl |-> dl, hasdl |-> 1, cap |-> -1,
-                  children |-> <<>>, fds |-> <<>>, synth |-> <<>>]
+                  children |-> <<>>, fds |-> <<>>, synth |-> <<>>, ondrop |-> 0]
 CompD(s, fds, modes, life, held) ==
    [s |-> s, kind |-> "comp", life |-> life, held |-> held, dl |-> -1000000, hasdl |-> 0, cap |-> -1,
-    children |-> [i \in DOMAIN modes |-> ChildR(modes[i])], fds |-> fds, synth |-> <<>>]
+    children |-> [i \in DOMAIN modes |-> ChildR(modes[i])], fds |-> fds, synth |-> <<>>, ondrop |-> 0]
 
 \* source sets used by the .cfg files
 DeclMix   == <<PingD(1, 10, 0), TimerD(2, 1), CompD(3, <<11>>, <<"level">>, 0, 0)>>
@@ -18,6 +18,7 @@ DeclTimers == <<PingD(1, 10, 0), TimerD(2, 1), TimerD(3, 1)>>
 DeclLife  == <<CompD(1, <<11, 12>>, <<"level", "level">>, 1, 0), PingD(2, 10, 1)>>
 DeclLifeSynth == <<[CompD(1, <<11, 12>>, <<"level", "level">>, 1, 0) EXCEPT !.synth = <<0, 2>>],
                    [PingD(2, 10, 1) EXCEPT !.synth = <<1>>]>>
+DeclDrop  == <<[PingD(1, 10, 0) EXCEPT !.ondrop = 1], [CompD(2, <<11>>, <<"level">>, 0, 0) EXCEPT !.ondrop = 1], PingD(3, 12, 0)>>
 DeclEdge  == <<CompD(1, <<11>>, <<"edge">>, 0, 0), CompD(2, <<12>>, <<"oneshot">>, 0, 1)>>
 
 AllRets == {"continue", "reregister", "disable", "remove", "err"}
